@@ -440,6 +440,34 @@ impl Slab {
     }
 }
 
+#[cfg(folo_verif)]
+impl Slab {
+    /// Verification hook: read-only snapshot of the slab's bookkeeping.
+    pub(crate) fn verif_probe(&self) -> crate::verif::SlabProbe {
+        let slots = (0..self.layout.capacity().get())
+            .map(|index| {
+                // SAFETY: In bounds - we iterate over our own capacity.
+                let slot_ptr = unsafe { self.slot_ptr_unchecked(index) };
+
+                // SAFETY: Every slot holds an initialized SlotMeta from new() onwards.
+                match unsafe { slot_ptr.as_ref() } {
+                    SlotMeta::Occupied { .. } => None,
+                    SlotMeta::Vacant {
+                        next_free_slot_index,
+                    } => Some(*next_free_slot_index),
+                }
+            })
+            .collect();
+
+        crate::verif::SlabProbe {
+            base: self.first_slot_ptr.as_ptr() as usize,
+            count: self.count,
+            free_head: self.next_free_slot_index,
+            slots,
+        }
+    }
+}
+
 impl Drop for Slab {
     fn drop(&mut self) {
         let was_empty = self.is_empty();
